@@ -15,6 +15,8 @@ const PREPARED: &[&str] = &[
   "some i in xs satisfies i = x",
   "{f: function(u) u + x, r: f(2)}.r",
   "every i in xs satisfies ({k: i}.k) >= 1",
+  "[{item: 1, qty: 5}, {item: 3, qty: 1}, {qty: 2}][item >= x]",
+  "{g: function() x + 1, r: g()}.r",
 ];
 
 const MODEL: &str = include_str!("../../data/c13_model.dmn");
